@@ -54,6 +54,14 @@ class Holder:
     k: Optional[K] = None
     dc: DC = field(default_factory=DC)
 
+# conversions built from the object fields of DC (evaluated lazily): they must follow every later
+# change of the fields of DC
+from apischema.objects import object_serialization, object_deserialization
+DC_OS = object_serialization(DC, [...])
+def _dc_from(a_b: int = 0, c: Optional[str] = None) -> DC:
+    return DC(a_b, c)
+DC_OD = object_deserialization(_dc_from)
+
 NT = NewType("NT", int)
 
 class Color(Enum):
@@ -314,6 +322,10 @@ def observations(m) -> List[Tuple[str, Callable[[], Any]]]:
         add(f"D(DC,{d})", lambda d=d: D(m.DC, d))
     add("D(DC,nested)", lambda: D(m.DC, {"a_b": 1, "c": {"a_b": 2, "c": None}}))
     add("S(DC)", lambda: S(m.DC, m.DC(1, None)))
+    add("S(DC,object_serialization)", lambda: S(m.DC, m.DC(1, None), conversion=m.DC_OS))
+    add("sschema(DC,object_serialization)", lambda: serialization_schema(m.DC, conversion=m.DC_OS))
+    add("D(DC,object_deserialization)", lambda: D(m.DC, {"a_b": 3}, conversion=m.DC_OD))
+    add("D(DC,object_deserialization,aB)", lambda: D(m.DC, {"aB": 3}, conversion=m.DC_OD))
     add("S(DC())", lambda: S(m.DC, m.DC()))
     add("S(untyped DC)", lambda: S(m.DC(2, "y")))
     for d in [{"k": 1}, {"k": "a"}, {"k": None, "dc": {"a_b": 5}}]:
